@@ -6,6 +6,7 @@
 import SkyllhModel.Model.Livetime
 import SkyllhModel.Proofs.Livetime
 import SkyllhModel.Proofs.LivetimeBetween
+import SkyllhModel.Proofs.LivetimeGrl
 import Mathlib.Order.Basic
 import Mathlib.Algebra.Order.Field.Basic
 import Mathlib.Tactic
@@ -530,6 +531,100 @@ theorem c14_history_query_fresh (held : List (K × K)) (ops : List (Op K)) (q : 
     rw [List.getLast?_cons_of_ne_nil hne]
 
 end history
+
+/-! ### Good-run-list glue: `clip_grl_start_times`, `I3Livetime.from_grl_data`, `TimeGenerator` -/
+section grl
+variable {F : Type} [LinearOrder F]
+
+/-- **after clipping no run starts before the previous run stops** (what the docstring of
+`clip_grl_start_times` promises), for every input; stop times and the number of runs are unchanged. -/
+theorem c14_clip_no_overlap (runs : List (F × F)) :
+    List.IsChain (fun a b : F × F => a.2 ≤ b.1) (clipStarts runs) ∧
+    (clipStarts runs).map Prod.snd = runs.map Prod.snd := by
+  cases runs with
+  | nil => simp [clipStarts]
+  | cons p rest =>
+    refine ⟨?_, ?_⟩
+    · have h := C14Grl.clipFrom_chain p.2 rest
+      show List.IsChain _ (p :: clipFrom p.2 rest)
+      cases hr : clipFrom p.2 rest with
+      | nil => simp
+      | cons q rest' =>
+        rw [hr, List.isChain_cons_cons] at h
+        rw [List.isChain_cons_cons]
+        exact ⟨h.1, h.2⟩
+    · show (p :: clipFrom p.2 rest).map Prod.snd = _
+      simp [C14Grl.clipFrom_snd]
+
+/-- each clipped start time is the larger of the run's start and the previous run's stop -/
+theorem c14_clip_starts (p : F × F) (rest : List (F × F)) :
+    (clipStarts (p :: rest)).map Prod.fst =
+      p.1 :: List.zipWith max (p.2 :: rest.map Prod.snd) (rest.map Prod.fst) := by
+  show (p :: clipFrom p.2 rest).map Prod.fst = _
+  simp [C14Grl.clipFrom_fst]
+
+/-- **clip, then build the live time** (the sequence used by the time-dependent public-data analysis):
+for a good-run list with non-decreasing start and stop columns and `start ≤ stop` per run (runs may
+overlap their predecessor) construction succeeds, the object holds a valid interval list, and a time is
+reported as on exactly when it lies in one of the *original* runs: clipping removes only doubly
+counted time. -/
+theorem c14_grl_livetime (runs : List (F × F))
+    (hstarts : (runs.map Prod.fst).Pairwise (· ≤ ·))
+    (hstops : (runs.map Prod.snd).Pairwise (· ≤ ·))
+    (hle : ∀ p ∈ runs, p.1 ≤ p.2) :
+    ∃ ivs, grlLivetime runs = some ivs ∧ C14.Sorted ivs ∧
+      ∀ t, isOn ivs t = true ↔ C14.InOn runs t := by
+  have hv := C14Grl.clipStarts_valid runs hstops hle
+  have hint : integrity (flat (clipStarts runs)) = true := (c14_integrity_iff _).mpr hv
+  have hs : C14.Sorted (clipStarts runs) := (c14_integrity_sorted _).mp hint
+  refine ⟨clipStarts runs, ?_, hs, ?_⟩
+  · unfold grlLivetime fromGrl
+    simp only [C14Grl.zip_fst_snd, hint, if_true]
+  · intro t
+    rw [c14_is_on_iff _ t hs]
+    exact C14Grl.clipStarts_in runs t hstarts hstops
+
+/-- a good-run list that is already valid is not changed, and clipping twice is clipping once -/
+theorem c14_clip_noop_idem (runs : List (F × F)) :
+    (C14.Sorted runs → clipStarts runs = runs) ∧ clipStarts (clipStarts runs) = clipStarts runs := by
+  refine ⟨fun h => C14Grl.clipStarts_noop runs ?_, C14Grl.clipStarts_idem runs⟩
+  exact (c14_integrity_iff _).mp ((c14_integrity_sorted runs).mpr h)
+
+/-- `from_grl_data` accepts exactly the good-run lists whose (start, stop) rows are a valid
+interval list, and then holds those rows -/
+theorem c14_from_grl (runs : List (F × F)) :
+    fromGrl (runs.map Prod.fst) (runs.map Prod.snd) = (if integrity (flat runs) then some runs else none) := by
+  unfold fromGrl
+  simp only [C14Grl.zip_fst_snd]
+
+/-- **boundary of `c14_grl_livetime`** (stop times not non-decreasing): a run nested inside its
+predecessor is clipped to a reversed row, which the `Livetime` constructor then rejects with a
+`ValueError` - no wrong live time is produced. -/
+theorem c14_clip_nested_rejected :
+    clipStarts ([(0, 10), (2, 3)] : List (ℤ × ℤ)) = [(0, 10), (10, 3)] ∧
+    grlLivetime ([(0, 10), (2, 3)] : List (ℤ × ℤ)) = none := by decide
+
+end grl
+
+section generator
+variable {K : Type} [Field K] [LinearOrder K] [IsStrictOrderedRing K]
+
+/-- **`TimeGenerator` / `LivetimeTimeGenerationMethod`** hand everything through to `draw_ontimes`, so a
+generated time is on-time inside the requested window -/
+theorem c14_generate_time (ivs : List (K × K)) (tmin tmax : Option K) (f l : K × K) (u : K)
+    (hs : C14.Sorted ivs) (hf : ivs.head? = some f) (hl : ivs.getLast? = some l)
+    (hsome : tmin.isSome ∨ tmax.isSome)
+    (hab : tmin.getD f.1 < tmax.getD l.2)
+    (hL : 0 < C14.total (betweenSpec ivs (tmin.getD f.1) (tmax.getD l.2)))
+    (hu0 : 0 ≤ u) (hu1 : u < 1) :
+    ∃ x, generateTime ivs tmin tmax u = some x ∧ isOn ivs x = true ∧
+      tmin.getD f.1 ≤ x ∧ x < tmax.getD l.2 :=
+  c14_drawWin ivs tmin tmax f l u hs hf hl hsome hab hL hu0 hu1
+
+end generator
+
+-- non-vacuity of `c14_grl_livetime`: overlapping runs with sorted columns
+example : grlLivetime ([(0, 5), (3, 8), (8, 9), (8, 12)] : List (ℤ × ℤ)) = some [(0, 5), (5, 8), (8, 9), (9, 12)] := by decide
 
 -- non-vacuity: a concrete sorted interval set with a touching pair and a zero-length interval
 example : C14.Sorted ([(0, 2), (2, 4), (6, 6), (8, 12)] : List (ℤ × ℤ)) := by
